@@ -84,12 +84,13 @@ pub fn parse_all(s: &str) -> Result<Vec<Value>, String> {
 
 /// All 128^4 ASCII strings of length 4 against every parser.
 pub fn ascii_sweep() -> Value {
-    let per_first: Vec<(Vec<Value>, u64, u64)> = (0..128u8)
+    let per_first: Vec<(Vec<Value>, u64, u64, u64)> = (0..128u8)
         .into_par_iter()
         .map(|a| {
             let mut acc = Vec::new();
             let mut rejected = 0u64;
             let mut panics = 0u64;
+            let mut overflow = 0u64;
             let mut buf = [a, 0, 0, 0];
             for b in 0..128u8 {
                 buf[1] = b;
@@ -101,8 +102,13 @@ pub fn ascii_sweep() -> Value {
                         match parse_all(s) {
                             Ok(v) if v.is_empty() => rejected += 1,
                             Ok(v) => {
+                                // memory stays bounded however much the code under test accepts
                                 for x in v {
-                                    acc.push(json!([buf.to_vec(), x]));
+                                    if acc.len() < 3_000 {
+                                        acc.push(json!([buf.to_vec(), x]));
+                                    } else {
+                                        overflow += 1;
+                                    }
                                 }
                             }
                             Err(_) => panics += 1,
@@ -110,17 +116,24 @@ pub fn ascii_sweep() -> Value {
                     }
                 }
             }
-            (acc, rejected, panics)
+            (acc, rejected, panics, overflow)
         })
         .collect();
     let mut accepted = Vec::new();
-    let (mut rej, mut pan) = (0u64, 0u64);
-    for (a, r, p) in per_first {
-        accepted.extend(a);
+    let (mut rej, mut pan, mut over) = (0u64, 0u64, 0u64);
+    for (a, r, p, o) in per_first {
+        // more than 3000 accepted (name, parser) pairs for one first byte (the documented maximum is 772):
+        // the surplus is only counted, and at most 20 000 pairs are handed to the validator
+        if accepted.len() + a.len() <= 20_000 {
+            accepted.extend(a);
+        } else {
+            over += a.len() as u64;
+        }
         rej += r;
         pan += p;
+        over += o;
     }
-    json!({"fam": "names4", "alphabet": 128, "accepted": accepted, "rejected_hi": rej >> 16, "rejected_lo": rej & 0xFFFF, "panics": pan,
+    json!({"fam": "names4", "alphabet": 128, "accepted": accepted, "overflow": over.min(1 << 30), "rejected_hi": rej >> 16, "rejected_lo": rej & 0xFFFF, "panics": pan,
            "verdict": if pan == 0 { "ok" } else { "panic" }})
 }
 
@@ -138,7 +151,11 @@ fn rle(n: u64, f: impl Fn(u64) -> i64 + Sync) -> Vec<Value> {
                 let cl = f(x);
                 match v.last_mut() {
                     Some(l) if l.2 == cl => l.1 = x,
-                    _ => v.push((x, x, cl)),
+                    _ => {
+                        if v.len() < 50_000 {
+                            v.push((x, x, cl))
+                        }
+                    }
                 }
             }
             v
@@ -286,6 +303,60 @@ pub fn map_sweep(max_run: u32) -> Vec<Value> {
             "segments": segs.iter().map(|(a, b, id)| json!([[a >> 16, a & 0xFFFF], [b >> 16, b & 0xFFFF], id + 1])).collect::<Vec<_>>(),
             "tables": distinct,
             "boards": if what == "wiremap" { a16_boards().len() } else { pwb_boards().len() }}));
+    }
+    // the maps are functions of (run, board, channel): the same question asked right after the same
+    // board was looked up for another run (same thread, board-major order) must give the same table
+    {
+        let runs: Vec<u32> = vec![0, 2940, 2941, 4417, 4418, 5000, 10417, 10418, 20000, u32::MAX];
+        let wire_after = |r1: u32, r2: u32| -> Vec<i64> {
+            let mut t = Vec::new();
+            for b in a16_boards() {
+                for ch in 0..32u8 {
+                    let c = Adc32ChannelId::try_from(ch).unwrap();
+                    let _ = TpcWirePosition::try_new(r1, b, c);
+                    t.push(TpcWirePosition::try_new(r2, b, c).map(|w| usize::from(w) as i64).unwrap_or(-1));
+                }
+            }
+            t
+        };
+        let pad_after = |r1: u32, r2: u32| -> Vec<i64> {
+            let mut t = Vec::new();
+            for b in pwb_boards() {
+                for chip in 0..4u8 {
+                    for k in 1..=72u16 {
+                        let c = PadChannelId::try_from(k).unwrap();
+                        let _ = TpcPadPosition::try_new(r1, b, after_of(chip), c);
+                        t.push(
+                            TpcPadPosition::try_new(r2, b, after_of(chip), c)
+                                .map(|p| (usize::from(p.column) * 576 + usize::from(p.row)) as i64)
+                                .unwrap_or(-1),
+                        );
+                    }
+                }
+            }
+            t
+        };
+        for (what, plain, after) in [
+            ("wiremap", &wire_table as &(dyn Fn(u32) -> Vec<i64> + Sync), &wire_after as &(dyn Fn(u32, u32) -> Vec<i64> + Sync)),
+            ("padmap", &pad_table, &pad_after),
+        ] {
+            let mut distinct: Vec<Vec<i64>> = Vec::new();
+            let mut id_of = |t: Vec<i64>| -> usize {
+                match distinct.iter().position(|d| *d == t) {
+                    Some(i) => i + 1,
+                    None => {
+                        distinct.push(t);
+                        distinct.len()
+                    }
+                }
+            };
+            // sequentially on this thread, so that any per-thread memory of the previous call is exercised
+            let plain_ids: Vec<usize> = runs.iter().map(|&r| id_of(plain(r))).collect();
+            let after_ids: Vec<Vec<usize>> = runs.iter().map(|&r1| runs.iter().map(|&r2| id_of(after(r1, r2))).collect()).collect();
+            out.push(json!({"fam": "maphist", "what": what, "verdict": "ok",
+                "runs": runs.iter().map(|r| json!([r >> 16, r & 0xFFFF])).collect::<Vec<_>>(),
+                "plain": plain_ids, "after": after_ids}));
+        }
     }
     // geometry and the wire <-> pad column association
     let wphi: Vec<i64> = (0..256).map(|w| (TpcWirePosition::try_from(w).unwrap().phi() * 1e6).round() as i64).collect();
